@@ -339,8 +339,93 @@ def shard_const_input(m, items):
             signal.setitimer(signal.ITIMER_REAL, 0)
 
 
+# ---- part (d): depth -------------------------------------------------------------------------
+# Nesting is where a recursive-descent parser spends its stack.  Finite nesting must not end in a RecursionError;
+# where it does (recorded finding: about 80 interpreter frames per nesting level of grammar text, about 9 per level of
+# input), the battery pins the depth that is known to work, so that a change that makes each level more expensive shows.
+_DEEPER = lambda n: 'a ' * (n + 1)      # noqa: E731  one token per level and one more
+NEST_SHAPES = {       # name: (opening, closing, rest of the rule, the text of depth n that the grammar accepts)
+    'group': ("('a' ", ")", ' $', _DEEPER), 'group-choice': ("('a' | 'b' ", ")", ' $', lambda n: 'b ' * n + 'a'),
+    'optional': ("['a' ", "]", ' $', _DEEPER), 'closure': ("{'a' ", "}", ' $', _DEEPER), 'positive-closure': ("{'a' ", "}+", ' $', _DEEPER),
+    'lookahead': ("&('a' ", ")", ' /[a ]*/ $', _DEEPER), 'negative-lookahead': ("!('b' ", ")", ' /[a ]*/ $', lambda n: 'a'),
+    'named': ("x:('a' ", ")", ' $', _DEEPER), 'override': ("@:('a' ", ")", ' $', _DEEPER), 'join': ("','.{'a' ", "}", ' $', _DEEPER),
+    'skip-to': ("->('a' ", ")", ' $', _DEEPER),
+}
+NEST_OK = (1, 2, 4, 6)          # must compile and parse
+NEST_DEEP = (16, 24, 48)        # recorded finding when they end in RecursionError
+INPUT_GRAMMARS = {
+    'parens': ("start: e $ ;\n\ne: '(' e ')' | 'a' ;\n", lambda n: '(' * n + 'a' + ')' * n),
+    'right-recursion': ("start: e $ ;\n\ne: 'a' e | 'b' ;\n", lambda n: 'a ' * n + 'b'),
+    'optional-tail': ("start: e $ ;\n\ne: 'a' [e] ;\n", lambda n: 'a ' * n),
+    'three-rules': ("start: e $ ;\n\ne: t '+' e | t ;\n\nt: '(' e ')' | f ;\n\nf: /\\d/ ;\n", lambda n: '(' * n + '1' + ')' * n),
+}
+INPUT_OK = (1, 8, 24)           # nesting depths of input that must parse
+INPUT_DEEP = (200, 500)         # recorded finding when they end in RecursionError
+FLAT_GRAMMARS = {                # iteration, not recursion: any length must parse
+    'closure': ("start: {'a'} $ ;\n", lambda n: 'a ' * n),
+    'join': ("start: ','.{'a'} $ ;\n", lambda n: ','.join(['a'] * n)),
+    'left-recursion': ("start: e $ ;\n\ne: e '+' t | t ;\n\nt: /\\d/ ;\n", lambda n: '+'.join(['1'] * n)),
+    'skip-to': ("start: ->'b' $ ;\n", lambda n: 'a' * n + 'b'),
+    'whitespace-and-comments': ("@@eol_comments :: /#[^\\n]*/\n\nstart: 'a' 'b' $ ;\n", lambda n: 'a' + ' \n# c\n' * n + 'b'),
+}
+FLAT_LENGTHS = (10, 300, 1500)
+
+
+def depth_items():
+    for shape in NEST_SHAPES:
+        for n in NEST_OK + NEST_DEEP:
+            yield ('grammar', shape, n)
+    for g in INPUT_GRAMMARS:
+        for n in INPUT_OK + INPUT_DEEP:
+            yield ('input', g, n)
+    for g in FLAT_GRAMMARS:
+        for n in FLAT_LENGTHS:
+            yield ('flat', g, n)
+
+
+def shard_depth(m, items):
+    from tatsu.exceptions import ParseException
+    signal.signal(signal.SIGALRM, _alarm)
+    for kind, name, n in items:
+        if kind == 'grammar':
+            o, c, rest, mk = NEST_SHAPES[name]
+            gtext, text = 'start: ' + o * n + "'a'" + c * n + rest + ' ;\n', mk(n)
+            deep = n in NEST_DEEP
+        else:
+            gtext, mk = (INPUT_GRAMMARS if kind == 'input' else FLAT_GRAMMARS)[name]
+            text = mk(n)
+            deep = kind == 'input' and n in INPUT_DEEP
+        where = f'{kind}-nesting/{name}/depth-{n}' if not deep else f'{kind}-nesting-beyond-the-depth-that-works'
+        stage = 'compile'
+        m.add('evaluations')
+        signal.setitimer(signal.ITIMER_REAL, 30.0)
+        try:
+            with contextlib.redirect_stderr(io.StringIO()):
+                model = impl.compile_text(gtext)
+                stage = 'parse'
+                model.parse(text)
+            m.add('nontrivial')
+            if deep:
+                m.add('deep_cases_that_work')
+        except ParseException as e:
+            # every battery text is in the language of its grammar
+            m.violation(f'depth/rejected/{stage}/{where}', grammar=gtext[:300], input=text[:80], depth=n, error=f'{type(e).__name__}: {e}'[:200])
+        except Watchdog:
+            m.violation(f'hang/{stage}/{where}', grammar=gtext[:300], input=text[:80], depth=n)
+        except RecursionError:
+            m.violation(f'recursion-error/{stage}/{where}', grammar=gtext[:300], input=text[:80], depth=n)
+        except Exception as e:  # noqa
+            m.violation(f'foreign-exception/{type(e).__name__}/{stage}/{where}', grammar=gtext[:300], input=text[:80], depth=n, error=str(e)[:150])
+        finally:
+            signal.setitimer(signal.ITIMER_REAL, 0)
+
+
 def run(rc):
     quick = rc.tier == 'quick'
+    di = list(depth_items())
+    rc.pmap(shard_depth, di, chunk=2)
+    rc.coverage['depth_cases'] = {'grammar_shapes': len(NEST_SHAPES), 'grammar_depths': list(NEST_OK + NEST_DEEP), 'input_grammars': len(INPUT_GRAMMARS),
+                                  'input_depths': list(INPUT_OK + INPUT_DEEP), 'flat_grammars': len(FLAT_GRAMMARS), 'flat_lengths': list(FLAT_LENGTHS)}
     ci = [''.join(t) for n in range(0, 4) for t in itertools.product(['{x}', 'a', '{', '}', '1+1', "'"], repeat=n)]
     rc.pmap(shard_const_input, ci, chunk=4)
     rc.coverage['constant_interpolating_input_cases'] = len(ci)
